@@ -304,30 +304,122 @@ def check_bulk(chk, it, tabs, configs):
                             ('load_data', 'memcpy', 'copy')):
         if fn == 'load_data' and fn not in htu.functions:
             continue        # LOAD_DATA copies directly (checked on the template above)
-        paths = run_fn(fn)
         chk.fn(fn)
         site = 'runtime/' + fn
-        ev = [e for p in paths for e in p.events if e[0] in ('memcpy', 'memmove', 'memset')]
-        ok = len(paths) == 1 and len(ev) == 1 and ev[0][0] == libfn
-        chk.expect(ok, 'R05.4', fn + ':libc',
-                   '%s performs %r; the specification needs one %s (%s)%s' % (
-                       fn, [e[0] for e in ev], what, libfn,
-                       ' - memcpy is undefined for overlapping ranges' if fn == 'wasmMemoryCopy' else ''), site)
-        if not ok:
-            continue
-        a = ev[0][1]
         pn = params(fn)
-        if fn == 'wasmMemoryCopy':
-            def loc(v, mem, addr):
-                return is_sym(v) and v.op == '+' and unk('data:' + mem) in v.args and unk(addr) in v.args
-            good = loc(a[0], pn[0], pn[2]) and loc(a[1] if not isinstance(a[1], tuple) else a[1][1], pn[1], pn[3]) and pe.strip_casts(a[2]) == unk(pn[4])
-            chk.expect(good, 'R05.4', fn + ':args', 'memmove%r does not copy count bytes from source+sourceAddress to destination+destinationAddress' % (a,), site)
-        elif fn == 'wasmMemoryFill':
-            v = a[1]
-            s = runtime.sym_slice(v) if is_sym(v) else ('top',)
-            good = is_sym(a[0]) and a[0].op == '+' and unk(pn[1]) in a[0].args and s[0] == 'slice' and s[1] == unk(pn[2]) and \
-                pe.strip_casts(a[2]) == unk(pn[3])
-            chk.expect(good, 'R05.4', fn + ':args', 'memset%r does not fill count bytes at data+destinationAddress with value' % (a,), site)
+        try:
+            paths = [p for p in run_fn(fn) if not p.aborted]
+            shape = None
+        except pe.PEError as e:
+            paths, shape = [], 'not summarised symbolically (%s)' % e
+
+        def args_ok(a):
+            if fn == 'wasmMemoryCopy':
+                def loc(v, mem, addr):
+                    return is_sym(v) and v.op == '+' and unk('data:' + mem) in v.args and unk(addr) in v.args
+                return loc(a[0], pn[0], pn[2]) and loc(a[1] if not isinstance(a[1], tuple) else a[1][1], pn[1], pn[3]) and \
+                    pe.strip_casts(a[2]) == unk(pn[4])
+            if fn == 'wasmMemoryFill':
+                v = a[1]
+                sl = runtime.sym_slice(v) if is_sym(v) else ('top',)
+                return is_sym(a[0]) and a[0].op == '+' and unk(pn[1]) in a[0].args and sl[0] == 'slice' and sl[1] == unk(pn[2]) and \
+                    pe.strip_casts(a[2]) == unk(pn[3])
+            return True
+        cnt = unk(pn[-1])
+        for p in paths:
+            ev = [e for e in p.events if e[0] in ('memcpy', 'memmove', 'memset')]
+            touches = [e for e in p.events if e[0] in ('store-sym',)]
+            if len(ev) == 1 and not touches and ev[0][0] == libfn and args_ok(ev[0][1]):
+                continue
+            if not ev and not touches and pe.has_relation(pe.relations(p), '==', lambda x: pe.strip_casts(x) == cnt, lambda y: y == 0):
+                continue        # nothing to move
+            if len(ev) == 1 and not touches and fn == 'wasmMemoryCopy' and ev[0][0] in ('memcpy', '__builtin_memcpy') and len(paths) == 1:
+                shape = 'memcpy'      # definite: undefined for overlapping ranges
+                break
+            shape = 'path %s performs %r' % (p.cond_text()[:80], [e[0] for e in ev] + [e[0] for e in touches])
+            break
+        if not paths and shape is None:
+            shape = 'no path'
+        if shape is None:
+            chk.ok('R05.4', fn + ':libc', 'every path: one %s with the specified operands (or nothing for count 0)' % libfn)
+            chk.ok('R05.4', fn + ':args')
+            continue
+        if shape == 'memcpy':
+            chk.fail('R05.4', fn + ':libc', '%s performs memcpy; the specification needs an overlap-safe copy (memmove) - memcpy is undefined for '
+                     'overlapping ranges' % fn, site)
+            continue
+        # unrecognised shape: evaluate the function on a concrete family of small operands (overlapping both ways, counts 0..17) against
+        # the specification's byte-wise model.  A disagreement is a definite violation; agreement on the family decides nothing more.
+        bad = concrete_bulk_family(htu, fn, pn)
+        if bad:
+            chk.fail('R05.4', fn + ':bytes', '%s (%s) moves the wrong bytes: %s' % (fn, shape, bad), site)
+            continue
+        raise AnalysisBroken('%s: %s - shape not recognised; it agrees with the specification on the concrete family, which does not decide '
+                             'all operands' % (fn, shape))
+
+
+def concrete_bulk_family(htu, fn, pn):
+    """first disagreement between fn (partially evaluated on concrete bytes) and the byte-wise specification, or None"""
+    def mm(interp, args, node):
+        d, s_, n = args
+        src = [interp.load(s_.c, s_.k + i) for i in range(n)]
+        for i in range(n):
+            interp.store(d.c, d.k + i, src[i])
+        return d
+
+    def mset(interp, args, node):
+        d, v, n = args
+        for i in range(n):
+            interp.store(d.c, d.k + i, v & 0xFF)
+        return d
+    leafs = {'memmove': mm, '__builtin_memmove': mm, 'memcpy': mm, '__builtin_memcpy': mm, 'memset': mset, '__builtin_memset': mset}
+    N = 40
+    for same in (True, False):
+        for n in range(0, 18):
+            for d0 in range(0, 12):
+                for s0 in (range(0, 12) if fn != 'wasmMemoryFill' else (0,)):
+                    a = [(7 * i + 3) & 0xFF for i in range(N)]
+                    b = a if same or fn == 'wasmMemoryFill' else [(11 * i + 5) & 0xFF for i in range(N)]
+                    it2 = pe.Interp([htu], leafs, max_paths=64)
+                    it2.cur_tu = htu
+                    it2.strict_bounds = True
+                    it2.strict_store_bounds = True
+
+                    def rec(bytes_):
+                        r = it2.zero_init('struct wasmMemory')
+                        r['data'] = Ptr(bytes_, 0)
+                        r['size'] = N
+                        return Ptr({'v': r}, 'v')
+                    if fn == 'wasmMemoryCopy':
+                        src_before = list(b)
+                        want = list(a)
+                        want[d0:d0 + n] = src_before[s0:s0 + n]
+                        args = [rec(a), rec(b), d0, s0, n]
+                        desc = 'copy of %d bytes from %d to %d in %s' % (n, s0, d0, 'the same memory' if same else 'another memory')
+                    elif fn == 'wasmMemoryFill':
+                        want = list(a)
+                        want[d0:d0 + n] = [0x1A5 & 0xFF] * n
+                        args = [rec(a), d0, 0x1A5, n]
+                        desc = 'fill of %d bytes at %d with 0x1A5' % (n, d0)
+                    else:
+                        want = list(a)
+                        want[d0:d0 + n] = b[s0:s0 + n] if not same else a[s0:s0 + n]
+                        args = [Ptr(a, d0), Ptr(b, s0), n]
+                        desc = 'load_data of %d bytes' % n
+                        if same:
+                            continue
+                    try:
+                        ps = it2.explore(lambda: (fn, args, {}))
+                    except pe.PEError as e:
+                        return '%s: %s' % (desc, e)
+                    if len(ps) != 1 or ps[0].aborted:
+                        return '%s: %d paths' % (desc, len(ps))
+                    if a != want:
+                        k = [i for i in range(N) if a[i] != want[i]][0]
+                        return '%s leaves byte %d = 0x%02X, specification 0x%02X' % (desc, k, a[k], want[k])
+                    if fn == 'wasmMemoryFill':
+                        break
+    return None
 
 
 def run(chk):
